@@ -60,7 +60,8 @@ MODULE = {
     "C11": lambda f: f in ("TreeSequence_split_edges", "TreeSequence_extend_haplotypes", "TableCollection_delete_older", "TableCollection_delete_sites"),
     "C13": lambda f: re.search(r"^(Individual|Node|Edge|Migration|Site|Mutation|Population|Provenance)Table_", f) is not None
     or f in ("table_keep_rows", "array_converter", "bool_array_converter", "int32_array_converter", "make_owned_array", "TreeSequence_make_array")
-    or f.endswith("_keep_rows_generic") or f.startswith("table_get_") or f.startswith("TreeSequence_get_"),
+    or f.endswith("_keep_rows_generic") or f.startswith("table_get_") or f.startswith("TreeSequence_get_")
+    or re.fullmatch(r"make_(individual|node|edge|migration|site|mutation|population|provenance)(_row|_object)?", f) is not None,
     "C14": lambda f: f in ("TableCollection_subset", "TableCollection_union"),
     "C17": lambda f: f.startswith("make_"),
     "C18": lambda f: f in ("Tree_get_newick",),
